@@ -324,6 +324,22 @@ def vacuity_pass(units, work, rlimit):
     return total, unreachable, problems
 
 
+def find_streams(finder_driver, pid, seed, budget, n):
+    """n independent sample streams side by side (seeds seed*8 .. seed*8+n-1); the first unknown counterexample wins"""
+    finder_driver.build(REPO)   # once, before the streams start
+    if pid == 'C20' and REPO not in finder_driver._DUCK:
+        finder_driver._DUCK[REPO] = finder_driver.build_duck(REPO)   # the real `duck` binary, built once
+    with concurrent.futures.ThreadPoolExecutor(max_workers=n) as ex:
+        runs = list(ex.map(lambda k: finder_driver.find(pid, seed * 8 + k, budget, REPO, None), range(n)))
+    hits = [x for x in runs if x and x.get('found') and not finder_driver.is_known_input(pid, x, load_known())]
+    if hits:
+        return hits[0]
+    errs = [x.get('error') for x in runs if x and x.get('error')]
+    return dict(found=False, evaluations=sum((x or {}).get('evaluations') or 0 for x in runs), streams=n,
+                known_class_hits=sum((x or {}).get('known_class_hits') or 0 for x in runs), error=errs[0] if errs else None,
+                note=(runs[0] or {}).get('note'))
+
+
 def decide(pid, pc, tier, seed, work, t0, finder_driver):
     units = pc['units']
     rlimit = CONF.get('rlimit', 20) * (2 if tier == 'thorough' else 1)
@@ -434,7 +450,7 @@ def decide(pid, pc, tier, seed, work, t0, finder_driver):
         # the contracts could not be attached / decided (e.g. the function was restructured): fall back to
         # replaying sampled inputs of the property's domain on the real code; only a concrete failing input
         # that replays counts as a violation - otherwise the answer stays "undecided" (exit 2, no alarm)
-        hit = finder_driver.find(pid, seed, 30 if tier == 'quick' else 180, REPO, None)
+        hit = find_streams(finder_driver, pid, seed, 30 if tier == 'quick' else 180, 4 if tier == 'quick' else 8)
         ev = evidence(pid, pc, tier, seed, t0, mine, discharged, functions, results, smt_ms, verified, failures, undecided, known_hit, [], funcs_time, sha)
         ev['coverage']['undecided'] = undecided
         ev['coverage']['fallback_finder'] = {k: hit.get(k) for k in ('evaluations', 'found', 'error', 'note')} if hit else None
@@ -504,15 +520,8 @@ def decide(pid, pc, tier, seed, work, t0, finder_driver):
     if rc == 0 and pid in finder_driver.SUPPORTED and fbudget > 0:
         # every obligation was discharged: additionally replay sampled inputs of the property's domain on the
         # real code (sampled, never counted as discharged); a hit means a hole in a contract or in the trusted base
-        if tier == 'thorough':
-            # thorough: eight independent sample streams (seed .. seed+7) side by side, 120 s each
-            with concurrent.futures.ThreadPoolExecutor(max_workers=8) as ex:
-                runs = list(ex.map(lambda k: finder_driver.find(pid, seed * 8 + k, fbudget, REPO, None), range(8)))
-            hits = [x for x in runs if x and x.get('found') and not finder_driver.is_known_input(pid, x, load_known())]
-            sampled = hits[0] if hits else dict(found=False, evaluations=sum((x or {}).get('evaluations') or 0 for x in runs), streams=8,
-                                                 known_class_hits=sum((x or {}).get('known_class_hits') or 0 for x in runs))
-        else:
-            sampled = finder_driver.find(pid, seed, fbudget, REPO, None)
+        # quick: four independent sample streams side by side; thorough: eight, 120 s each
+        sampled = find_streams(finder_driver, pid, seed, fbudget, 8 if tier == 'thorough' else 4)
         if sampled and sampled.get('found') and not finder_driver.is_known_input(pid, sampled, load_known()):
             rp = os.path.join(VERIF, 'replay', pid, 'finder.json')
             json.dump(dict(property=pid, obligation='(none failed: hole in a contract or in the trusted base)', counterexample=sampled,
